@@ -123,7 +123,8 @@ func fmtCase(col *Collector, cfg map[string]interface{}, tasks, pipes []string, 
 		}
 		if runIt {
 			for _, t := range tasks {
-				r := runTaskctl(sub, nil, 20*time.Second, "-c", path, "--output", "raw", "-q", t)
+				// not quiet: the task's own output is part of the comparison (commands of one task run one at a time)
+				r := runTaskctl(sub, nil, 20*time.Second, "-c", path, "--output", "raw", t)
 				fmt.Fprintf(&sb, "run %s exit=%d\n%s\n", t, r.exit, r.stdout)
 			}
 			for _, p := range pipes {
@@ -177,7 +178,7 @@ func firstDiff(a, b string) string {
 }
 
 // the same content split over two files in different formats: the importing file and the imported one
-func crossImportCase(col *Collector, rng *rand.Rand, fa, fb string) {
+func crossImportCase(col *Collector, rng *rand.Rand, fa, fb string, emptyMain, viaDir bool) {
 	dir := newScratchDir("c16x")
 	defer os.RemoveAll(dir)
 	a := map[string]interface{}{
@@ -190,14 +191,27 @@ func crossImportCase(col *Collector, rng *rand.Rand, fa, fb string) {
 		"pipelines": map[string]interface{}{"pb": []interface{}{map[string]interface{}{"task": "tb"}}},
 		"variables": map[string]interface{}{"FromB": "yes"},
 	}
+	want := []string{"- pa", "- pb", "- ta", "- tb"}
+	if emptyMain {
+		// the importing file declares its sections but leaves them empty
+		a["tasks"], a["pipelines"] = map[string]interface{}{}, map[string]interface{}{}
+		want = []string{"- pb", "- tb"}
+	}
+	otherPath := filepath.Join(dir, "other."+fb)
+	if viaDir {
+		// the other file is reached through a directory import (only *.yaml files are read from a directory)
+		os.MkdirAll(filepath.Join(dir, "parts"), 0755)
+		a["import"] = []interface{}{"parts"}
+		otherPath = filepath.Join(dir, "parts", "other."+fb)
+	}
 	ta, _ := serialise(a, fa)
 	tb, _ := serialise(b, fb)
 	os.WriteFile(filepath.Join(dir, "main."+fa), []byte(ta), 0644)
-	os.WriteFile(filepath.Join(dir, "other."+fb), []byte(tb), 0644)
+	os.WriteFile(otherPath, []byte(tb), 0644)
 	def, _, err := loadDecoded(filepath.Join(dir, "main."+fa))
-	cs := Case{Tags: []string{"cross-import"}, NonTrivial: true, Replay: fmt.Sprintf("main.%s imports other.%s", fa, fb)}
+	cs := Case{Tags: []string{"cross-import", fmt.Sprintf("emptyMain=%v", emptyMain), fmt.Sprintf("viaDir=%v", viaDir)}, NonTrivial: true,
+		Replay: fmt.Sprintf("main.%s imports other.%s emptyMain=%v viaDir=%v: %s", fa, fb, emptyMain, viaDir, strings.ReplaceAll(ta, "\n", "\\n"))}
 	r := runTaskctl(dir, nil, 15*time.Second, "-c", filepath.Join(dir, "main."+fa), "list")
-	want := []string{"- pa", "- pb", "- ta", "- tb"}
 	switch {
 	case err != nil:
 		cs.Fail, cs.Sig = fmt.Sprintf("a %s file importing a %s file does not load: %v", fa, fb, err), "c16-cross-import"
@@ -242,12 +256,21 @@ func runC16(col *Collector, tier string, seed int64) {
 		t0["env"] = map[string]interface{}{"NUM": 12, "FLAG": true, "TXT": "t"}
 		t0["variables"] = map[string]interface{}{"Suffix": 5}
 		t0["timeout"] = 2000000000
-		jobs = append(jobs, job{w, tasks, pipes, "weak-typing", false})
+		// numbers and booleans as top-level variables, substituted into a command that is run
+		w["variables"] = map[string]interface{}{"GlobalVar": "gv", "Big": 1048576, "Small": 7, "Neg": -3, "Flag": true, "Huge": 123456789012}
+		t0["command"] = []interface{}{"echo weak {{.Big}} {{.Small}} {{.Neg}} {{.Flag}} {{.Huge}} {{.Suffix}} $NUM $FLAG"}
+		delete(t0, "condition")
+		jobs = append(jobs, job{w, tasks, pipes, "weak-typing", i%2 == 0})
 	}
 	parallel(len(jobs), 8, func(i int) { fmtCase(col, jobs[i].cfg, jobs[i].tasks, jobs[i].pipes, jobs[i].tag, jobs[i].run) })
 	for _, fa := range formats {
 		for _, fb := range formats {
-			crossImportCase(col, rng, fa, fb)
+			crossImportCase(col, rng, fa, fb, false, false)
+			crossImportCase(col, rng, fa, fb, true, false)
+			if fb == "yaml" {
+				crossImportCase(col, rng, fa, fb, false, true)
+				crossImportCase(col, rng, fa, fb, true, true)
+			}
 			for _, fc := range formats {
 				multiImportCase(col, fa, fb, fc, false)
 				multiImportCase(col, fa, fb, fc, true)
